@@ -28,6 +28,10 @@ elif spec["end"] == "block":
 '''
 
 
+# an endmarker is whatever object the caller asks for, the falsy ones included
+ENDVALS = {"tuple": ("END",), "none": None, "zero": 0, "false": False, "empty": ""}
+
+
 class CbScn:
     """P: n, k (items taken with receive() before setcallback), end, chan ("exec"|"new"),
     endmarker (bool), delay (virtual seconds before setcallback), transport, backend"""
@@ -35,7 +39,7 @@ class CbScn:
     @staticmethod
     def scenario(w, P):
         S = Session(w, P.get("transport", "popen"), P.get("backend", "thread"))
-        END = ("END",)
+        END = ENDVALS[P.get("endval", "tuple")]
 
         def main():
             gw = S.open()
@@ -141,7 +145,7 @@ class CbScn:
     def oracle(w, S, P):
         obs = w.obs
         calls = S.ctx.get("calls", [])
-        END = ("END",)
+        END = ENDVALS[P.get("endval", "tuple")]
         outcome = (tuple(1 if c == END else 0 for c in calls), tuple(e[0] for e in obs if e[0] in ("pre",)))
 
         def V(key, msg):
@@ -192,7 +196,7 @@ class MultiScn:
     @staticmethod
     def scenario(w, P):
         S = Session(w, "popen", "thread")
-        END = ("END",)
+        END = ENDVALS[P.get("endval", "tuple")]
 
         def main():
             from execnet.multi import Group
@@ -201,7 +205,7 @@ class MultiScn:
             g.makegateway("popen//id=a")
             g.makegateway("popen//id=b")
             w.exploring = True
-            mc = g.remote_exec("for i in range(%d): channel.send(i)" % P["n"])
+            mc = g.remote_exec("for i in range(%d): channel.send(10 + i)" % P["n"])
             em = S.proc.execmodel
             if P.get("delay"):
                 em.sleep(P["delay"])
@@ -237,13 +241,13 @@ class MultiScn:
     def oracle(w, S, P):
         got = S.ctx.get("got", [])
         extra = S.ctx.get("extra", [])
-        END = ("END",)
+        END = ENDVALS[P.get("endval", "tuple")]
         outcome = tuple(g for g, _ in got)
         if ("main-done",) not in w.obs or any(e[0] == "queue-exc" for e in w.obs):
             return ("c10:multi-hang", f"obs={w.obs} got={got} blocked={w.blocked_at_end}"), outcome
         for gid in ("a", "b"):
             seq = [i for g, i in got if g == gid]
-            if seq != list(range(P["n"])) + [END]:
+            if seq != [10 + i for i in range(P["n"])] + [END] or (seq and seq[-1] is not END):
                 return ("c10:multi-order", f"member {gid}: queue delivered {seq}"), outcome
         if extra:
             return ("c10:multi-extra", f"items after both endmarkers: {extra}"), outcome
@@ -312,6 +316,19 @@ def run(tier: str, only=None) -> int:
                 continue  # the socket worker lives in the master's process: killing it is the C04 scenario
             P = dict(C, transport=tr, backend=be)
             harness.run_exploration(rep, PID, name, CbScn, P, {"ps": 1, "free": 0}, max_execs=cap)
+    # every endmarker value, the falsy ones included: default schedule + 1 preemption
+    for ev in ("none", "zero", "false", "empty"):
+        for end in ("body-end", "error"):
+            name = f"cb/endval:{ev}:{end}"
+            if only and only not in name:
+                continue
+            P = {"n": 1, "k": 0, "end": end, "chan": "exec", "endmarker": True, "delay": 0, "endval": ev, "transport": "popen", "backend": "thread"}
+            harness.run_exploration(rep, PID, name, CbScn, P, {"ps": 1, "free": 0}, max_execs=cap)
+        for delay in (0, 3.0):
+            name = f"multi/endval:{ev}:d{delay}"
+            if only and only not in name:
+                continue
+            harness.run_exploration(rep, PID, name, MultiScn, {"n": 1, "delay": delay, "endval": ev}, {"ps": 1, "free": 0}, max_execs=cap)
     for n, delay in ((2, 0), (2, 3.0)):
         name = f"multi/n{n}d{delay}"
         if only and only not in name:
